@@ -11,7 +11,7 @@
 #ifndef TJV_CAP
 #define TJV_CAP 192
 #endif
-#define NST 6
+#define NST 12
 #ifndef NMEMO
 #define NMEMO 24
 #endif
@@ -48,7 +48,12 @@ void tjv_H(uint8_t out[32], const uint8_t *msg, unsigned len)     /* the abstrac
 void tinyjambu_hash_init(tinyjambu_hash_state_t *st)
 {
   unsigned h = slot_of(st);
-  if (!h) { __CPROVER_assert(g_next < NST, "tjv aux: enough ghost views"); h = g_next++; owner[h] = st; }
+  if (!h) {                                  /* first free slot (slots of freed states are reused) */
+    for (unsigned i = 1; i < NST; i++) if (!h && owner[i] == 0) h = i;
+    __CPROVER_assert(h != 0, "tjv aux: enough ghost views");
+    if (!h) return;
+    owner[h] = st;
+  }
   GV[h].len = 0; GV[h].live = 1;
 }
 void tinyjambu_hash_reinit(tinyjambu_hash_state_t *st) { tinyjambu_hash_init(st); }
@@ -69,7 +74,7 @@ void tinyjambu_hash_finalize(tinyjambu_hash_state_t *st, unsigned char *out)
 }
 void tinyjambu_hash_free(tinyjambu_hash_state_t *st)
 {
-  if (st) { unsigned h = slot_of(st); if (h) GV[h].live = 0; for (unsigned i = 0; i < sizeof(*st); i++) ((unsigned char *)st)[i] = 0; }
+  if (st) { unsigned h = slot_of(st); if (h) { GV[h].live = 0; owner[h] = 0; } for (unsigned i = 0; i < sizeof(*st); i++) ((unsigned char *)st)[i] = 0; }
 }
 void tinyjambu_hash(unsigned char *out, const unsigned char *in, size_t inlen)
 {
